@@ -557,9 +557,9 @@ def ShippedShaped (n : PNode) : Prop :=
     (n.terminal = true → NodeClasses.table.pure c = [])
 
 open Tranp.Generated in
-theorem shippedShaped_instance (n : PNode) (h : ShippedShaped n) : ShippedInstance n := by
-  obtain ⟨c, hc, hrow, ht⟩ := h
-  refine ⟨c, hc, ?_, ht⟩
+theorem shippedShaped_key_row (n : PNode) (c : Nat) (hc : c < NodeClasses.table.classes.length)
+    (hrow : n.props.map (fun p => (p.key, p.annList, p.isMany)) = GetterShapes.shapes.getD c []) :
+    n.props.map PProp.key = NodeClasses.table.pure c := by
   have hcov := congrArg (fun l => l.getD c []) shipped_getters_cover
   simp only [List.getD_eq_getElem?_getD, List.getElem?_map, List.getElem?_range hc, Option.map_some, Option.getD_some] at hcov
   rw [← hcov]
@@ -567,6 +567,11 @@ theorem shippedShaped_instance (n : PNode) (h : ShippedShaped n) : ShippedInstan
     simp [List.map_map, Function.comp_def]
   rw [this, hrow]
   cases hg : GetterShapes.shapes[c]? <;> simp [List.getD_eq_getElem?_getD, hg]
+
+open Tranp.Generated in
+theorem shippedShaped_instance (n : PNode) (h : ShippedShaped n) : ShippedInstance n := by
+  obtain ⟨c, hc, hrow, ht⟩ := h
+  exact ⟨c, hc, shippedShaped_key_row n c hc hrow, ht⟩
 
 open Tranp.Generated in
 theorem shippedShaped_clause4 (n : PNode) (h : ShippedShaped n) : ∀ p ∈ n.props, p.annList = p.isMany := by
@@ -580,6 +585,35 @@ theorem shippedShaped_clause4 (n : PNode) (h : ShippedShaped n) : ∀ p ∈ n.pr
   | some row =>
     simp only [hg, Option.getD_some] at hmem
     exact shipped_annotation_matches_body row (List.mem_of_getElem? hg) _ hmem
+
+open Tranp.Generated in
+/-- WF clause 2 ("nothing under a node whose properties yield nothing") is vacuous for most shipped classes: a node whose
+    properties yield nothing has only list-shaped properties, so its class is one whose getters ALL return lists
+    (`Entrypoint`, `List`, `Dict`, `Tuple`, `Block`, … — or a class without expandable getter). One node-shaped getter
+    (`.one`) already makes the expansion non-empty. The harness reports which of these classes it met childless. -/
+theorem shipped_clause2_only_all_list (n : PNode) (h : ShippedShaped n) (hempty : (propExpand n.props).isEmpty = true) :
+    ∃ c, c < NodeClasses.table.classes.length ∧ n.props.map PProp.key = NodeClasses.table.pure c ∧
+      (GetterShapes.shapes.getD c []).all (fun e => e.2.2) = true := by
+  obtain ⟨c, hc, hk, _⟩ := shippedShaped_instance n h
+  have hnd : (n.props.map PProp.key).Nodup := by rw [hk]; exact shipped_keys_nodup c hc
+  have hdup : DupEmpty n.props := by
+    intro p _ hcnt
+    have := PropKeys.count_le_one_of_nodup _ hnd p.key
+    omega
+  rw [propExpand_of_dupEmpty _ hdup] at hempty
+  have hall : ∀ p ∈ n.props, p.isMany = true := by
+    intro p hp
+    cases p with
+    | one k a m =>
+      have : m ∈ n.props.flatMap PProp.nodes := List.mem_flatMap.mpr ⟨_, hp, by simp [PProp.nodes]⟩
+      have hnil : n.props.flatMap PProp.nodes = [] := by simpa using hempty
+      rw [hnil] at this; simp at this
+    | many k a ms => rfl
+  obtain ⟨c', hc', hrow, _⟩ := h
+  refine ⟨c', hc', shippedShaped_key_row n c' hc' hrow, ?_⟩
+  rw [← hrow, List.all_map]
+  simp only [List.all_eq_true, Function.comp]
+  exact fun p hp => hall p hp
 
 /-- For trees of shipped node classes whose property values have the shape of the getter bodies, ALL of `WF` but clause 2
     holds by the generated tables: what remains is "nothing under a node whose properties yield nothing" (`under_clause_iff`). -/
